@@ -138,6 +138,24 @@ func VerifC10Unless() {
 	}
 	o3, e3 := vRender("{% unless c %}U{% endunless %}", b)
 	nd.Assert(e3 == nil && (o3 == "U") == !truthy, "unless-negates")
+	// a condition that fails to evaluate fails both spellings alike
+	fb := Bindings{"c": v, "z": 1}
+	o5, e5 := vRender("{% if z | divided_by: 0 %}A{% else %}B{% endif %}", fb)
+	o6, e6 := vRender("{% unless z | divided_by: 0 %}B{% else %}A{% endunless %}", fb)
+	nd.Assert(e5 != nil && e6 != nil && o5 == "" && o6 == "", "failing-condition-fails-if-and-unless-alike")
+	// strict-variables mode concerns what an object prints: in a condition, a case subject or a when
+	// value an undefined name is nil as ever, and falsy
+	se := NewEngine()
+	se.StrictVariables()
+	o7, e7 := se.ParseAndRenderString("{% if c %}A{% else %}B{% endif %}{% unless undefined_name %}U{% endunless %}{% case nosuch %}{% when 1 %}x{% else %}E{% endcase %}{% if nope %}{% elsif c %}{% else %}Z{% endif %}{% case c %}{% when nope2 %}n{% endcase %}", b)
+	w7 := "BUEZ"
+	if truthy {
+		w7 = "AUE"
+	}
+	if v == nil {
+		w7 += "n"
+	}
+	nd.Assert(e7 == nil && o7 == w7, "strict-variables-leaves-conditions-alone")
 	// the same value reached by lookup — as a map entry, an array element, behind a Drop, behind a Drop
 	// that yields a pointer to it or another Drop — is as true as the value itself
 	fl, tr := false, true
@@ -164,7 +182,8 @@ func VerifC10Case() {
 	elsePos := nd.Choice(3) // none, last, or written before the later when clauses: it still applies only when no when matches
 	hasElse := elsePos != 0
 	w4 := nd.IntIn(-2, 9)
-	src := "{% case s %}{% when w1, w2 %}A"
+	ma := []string{"A", ""}[nd.Choice(2)] // a matching when clause with an empty body still ends the case
+	src := "{% case s %}{% when w1, w2 %}" + ma
 	if elsePos == 2 {
 		src += "{% else %}Z"
 	}
@@ -181,6 +200,9 @@ func VerifC10Case() {
 	case 2:
 		sv = "x" // a string never equals a number
 	}
+	if ma == "" {
+		nd.Assume(elsePos != 0 && strSubject == 0) // the empty body matters when something could render instead
+	}
 	out, err := vRender(src, Bindings{"s": sv, "w1": w1, "w2": w2, "w3": w3, "w4": w4})
 	nd.Assert(err == nil, "case-no-error")
 	want := ""
@@ -190,7 +212,7 @@ func VerifC10Case() {
 			want = "Z"
 		}
 	case subj == w1 || subj == w2:
-		want = "A"
+		want = ma
 	case subj == w3:
 		want = "B"
 	case subj == w4:
